@@ -98,7 +98,8 @@ def shrink(mod, trace, res0, max_exec=600, wall=180.0, log=None):
             if not batch:
                 break
             results = runner.run_many(_exec_fn, [(mod, c) for c in batch], nslots=NSLOTS,
-                                      timeout=getattr(mod, 'RUN_TIMEOUT_S', 120.0))
+                                      timeout=getattr(mod, 'RUN_TIMEOUT_S', 120.0),
+                                      slot_init=getattr(mod, 'slot_init', None))
             n_exec += len(batch)
             for cand, r in zip(batch, results):
                 if r is not None and same_class(mod, res0, r):
@@ -169,7 +170,8 @@ def main_check(mod, tier, batch_seed, out=sys.stdout):
         j['keep_trace'] = True
     wall_budget = getattr(mod, 'WALL_BUDGET', {}).get(tier)
     results = runner.run_many(_job_fn, [(mod, j, tier) for j in jobs], nslots=NSLOTS,
-                              timeout=getattr(mod, 'RUN_TIMEOUT_S', 120.0), wall_budget=wall_budget)
+                              timeout=getattr(mod, 'RUN_TIMEOUT_S', 120.0), wall_budget=wall_budget,
+                              slot_init=getattr(mod, 'slot_init', None))
     done = [r for r in results if r is not None]
     for r in done:
         if r.get('status') == 'harness_error':
@@ -180,7 +182,7 @@ def main_check(mod, tier, batch_seed, out=sys.stdout):
     idx = [i for i, r in enumerate(results) if r is not None and r.get('status') in ('ok', 'violation')][:k]
     if idx:
         again = runner.run_many(_job_fn, [(mod, jobs[i], tier) for i in idx], nslots=max(1, NSLOTS // 3),
-                                timeout=getattr(mod, 'RUN_TIMEOUT_S', 120.0))
+                                timeout=getattr(mod, 'RUN_TIMEOUT_S', 120.0), slot_init=getattr(mod, 'slot_init', None))
         for i, r2 in zip(idx, again):
             if r2 is None or r2.get('status') == 'harness_error':
                 harness_errors.append(f'determinism rerun failed for seed {jobs[i]["seed"]}: {r2 and r2.get("detail")}')
@@ -260,7 +262,7 @@ def main_check(mod, tier, batch_seed, out=sys.stdout):
         say(f'  class={res["clause"]} runs={n} detail={str(res.get("detail"))[:600]}')
     if harness_errors:
         for h in harness_errors[:10]:
-            say(f'HARNESS-ERROR property={mod.PROPERTY} {h[:1500]}')
+            say(f'HARNESS-ERROR property={mod.PROPERTY} {h[:300]} ... {h[-1200:]}')
         return 3
     if reported:
         return 1
